@@ -342,11 +342,12 @@ func recvNative(c CallSpec) any {
 // per type: two free names, two names of built-ins of that type, two names that are
 // built-ins of OTHER receiver types only
 var c20Names = map[string][]string{
-	"str":   {"foo", "bar", "trim", "len", "abs", "join", "sha256", "to_b64"},
-	"arr":   {"foo", "bar", "join", "len", "upper", "ceil", "top10", "_x"},
-	"int":   {"foo", "bar", "abs", "str", "join", "trim", "mod10", "h1"},
-	"float": {"foo", "bar", "abs", "ceil", "len", "reverse", "f2", "r_2"},
-	"bool":  {"foo", "bar", "then", "binary", "reverse", "len", "b1", "is_0"},
+	// the last names of each row differ from a built-in of that very type only in case
+	"str":   {"foo", "bar", "trim", "len", "abs", "join", "sha256", "to_b64", "Upper", "Reverse", "LEN"},
+	"arr":   {"foo", "bar", "join", "len", "upper", "ceil", "top10", "_x", "Contains", "Join"},
+	"int":   {"foo", "bar", "abs", "str", "join", "trim", "mod10", "h1", "Abs", "Str"},
+	"float": {"foo", "bar", "abs", "ceil", "len", "reverse", "f2", "r_2", "Ceil", "Round"},
+	"bool":  {"foo", "bar", "then", "binary", "reverse", "len", "b1", "is_0", "Then", "Binary"},
 }
 var c20Types = []string{"str", "arr", "int", "float", "bool"}
 
